@@ -201,7 +201,12 @@ func genCfg(g *RNG, meta *MetaTable, class string) CfgSpec {
 			sb.WriteString(neutralSectionOnce(g))
 		}
 		sort.Strings(targets)
-		return CfgSpec{Class: "option", Text: sb.String(), Targets: targets, Via: "string"}
+		text := sb.String()
+		if g.Chance(0.3) {
+			// option-like keys at the top level belong to no lint
+			text = pick(g, []string{"Rounds = 0\n", "Skip = true\nCrossCert = true\n", "SubscriberCRL = false\n", "flag = true\nnum = 99\ntext = \"top-level\"\n", "num = 41\n"}) + text
+		}
+		return CfgSpec{Class: "option", Text: text, Targets: targets, Via: "string"}
 	case "illtyped", "odd":
 		// one lint L whose section cannot be applied, possibly mixed with legal
 		// sections for other lints
